@@ -39,7 +39,7 @@ from flowjax.bijections.bijection import AbstractBijection
 import vlib
 
 ID = "C13"
-GEN = ["Structure", "ArgCheckGen", "CtorsGen", "WrapperGen"]
+GEN = ["Structure", "ArgCheckGen", "CtorsGen", "WrapperGen", "BnafInitGen", "PlanarInitGen"]
 RULE = ("(a) zoo of real instances of every concrete bijection class (incl. the private _CallableToBijection / "
         "_UnconditionalPlanar, conditional and unconditional variants, shapes with size-1 axes, random generated "
         "compositions) x {transform, transform_and_log_det, inverse, inverse_and_log_det} x x-shape lattice (all 40 shapes "
@@ -800,8 +800,49 @@ def run_dist(c, tier, rng):
             c.mismatch("dist-model-vs-impl", op=line, dist=meta[0], method=meta[1], arg=str(meta[2]), condition=str(meta[3]), model=model, impl=got)
 
 
+# ------------------------------------------------------------------ the GENERATED `_UnconditionalPlanar.__init__` (Gen/PlanarInitGen.lean, op `guplanarinit`)
+def corr_uplanar_init(c, tier, rng):
+    """generated constructor at Float vs real `_UnconditionalPlanar(weight, act_scale, bias, negative_slope)`: the ValueError verdict, the
+    `activation` string, `shape`, the stored arrays and `activation_fn` at probe points (both signs, 0, -0.0, large)"""
+    import vlib
+    from flowjax.bijections.planar import _UnconditionalPlanar
+    slopes = [None, 0.1, 1.0, 2.5, 1e-300, 0.0, -0.0, -0.3, -1e-300, float("inf"), float("-inf"), float("nan")]
+    # (a SUBNORMAL slope such as 5e-324 is excluded: XLA on CPU flushes the subnormal products `slope * x` to -0.0, the model keeps them)
+    slopes += [rng.choice([-1, 1]) * 10 ** rng.uniform(-3, 2) for _ in range(4 if tier == "quick" else 40)]
+    pts = [-2.5, -1.0, -1e-3, -0.0, 0.0, 0.5, 3.0, 40.0]
+    for ns in slopes:
+        dim = rng.choice([1, 2, 3])
+        w = [rng.uniform(-2, 2) for _ in range(dim)]
+        u = [rng.uniform(-2, 2) for _ in range(dim)]
+        b = rng.uniform(-2, 2)
+        line = f"guplanarinit {vlib.fs2b(w)} {vlib.fs2b(u)} {vlib.f2b(b)} {'N' if ns is None else vlib.f2b(ns)} {vlib.fs2b(pts)}"
+        got = vlib.run_model([line])[0]
+        try:
+            o = _UnconditionalPlanar(jnp.asarray(w), jnp.asarray(u), jnp.asarray(b), ns)
+            vals = [float(o.activation_fn(jnp.asarray(p))) for p in pts]
+            want = ("OK", o.activation, ",".join(str(int(v)) for v in o.shape) or "-", [float(v) for v in np.asarray(o.weight)],
+                    [float(v) for v in np.asarray(o._act_scale)], float(o.bias), vals)
+        except ValueError as ex:
+            want = ("RAISE", "valueError" if "negative slope value should be >0" in str(ex) else str(ex)[:60])
+        raises = want[0] == "RAISE"
+        c.count("uplanarinit:" + ("None" if ns is None else ("raise" if raises else "slope")))
+        c.case(f"uplanarinit {'None' if ns is None else ('nonpos' if raises else 'pos')}", True, sample=dict(op=line, model=got, impl=str(want)[:200]))
+        f = got.split(" ")
+        if raises:
+            ok = got == "RAISE " + want[1]
+        else:
+            ok = (len(f) == 7 and f[0] == "OK" and f[1] == want[1] and f[2] == want[2] and vlib.b2fs(f[3]) == want[3] and vlib.b2fs(f[4]) == want[4]
+                  and vlib.b2f(f[5]) == want[5] and vlib.allclose(vlib.b2fs(f[6]), want[6], rtol=1e-12, atol=0.0))
+        if not ok:
+            c.mismatch("uplanarinit-generated-ctor-vs-impl", op=line, slope=repr(ns), model=got, impl=str(want)[:300])
+
+
 # ------------------------------------------------------------------ corr
 def corr(c, tier, rng):
+    corr_uplanar_init(c, tier, rng)
+    # --- the GENERATED `BlockAutoregressiveNetwork.__init__` (Gen/BnafInitGen.lean): guard verdict / built shapes against real constructions
+    from props import bnafld
+    bnafld.corr_init(c, tier, rng)
     jobs = []
     objs = {}
     for name, mk in zoo().items():
